@@ -280,6 +280,7 @@ def execute(trace, ctx):
         return top
 
     path_objects = {}
+    path_spelled = {}
 
     def path_of(op):
         # one path object per kind for the whole run: evaluating it (forwards, backwards, with both ends open) must leave it as it was
@@ -288,7 +289,14 @@ def execute(trace, ctx):
             p, q = URIRef(P), URIRef(Q)
             path_objects[w] = {"+": MulPath(p, "+"), "*": MulPath(p, "*"), "?": MulPath(p, "?"), "inv": InvPath(p), "alt": AlternativePath(p, q), "seq": SequencePath(p, q), "neg": NegatedPath(p)}[w]
             ctx.probe("path-object-reused")
-        return path_objects[w]
+            path_spelled[w] = path_objects[w].n3()
+        po = path_objects[w]
+        # building larger paths out of it is a read-only use as well: the object keeps meaning what it meant
+        r_ = URIRef(P + "-other")
+        for build in (lambda: po / r_, lambda: r_ / po, lambda: po | r_, lambda: ~po, lambda: po * "*", lambda: SequencePath(po, r_, URIRef(Q)), lambda: AlternativePath(po, r_, URIRef(Q))):
+            build()
+        ctx.check(po.n3() == path_spelled[w], "C13.path-object-changed", lambda: f"the path object for {w!r} was {path_spelled[w]} when it was made and is {po.n3()} after larger paths were built from it")
+        return po
 
     def norm_rows(res):
         if res.type == "ASK":
@@ -647,6 +655,8 @@ def execute(trace, ctx):
             net0 = kernel.NET.calls
             try:
                 ans, faulted = do_read(op)
+            except (kernel.Violation, kernel.KnownStop):
+                raise
             except Exception as e:
                 err = e
                 ctx.probe("read-raised")
@@ -665,6 +675,8 @@ def execute(trace, ctx):
                 ans2 = err2 = None
                 try:
                     ans2, _ = do_read(op, second=True)
+                except (kernel.Violation, kernel.KnownStop):
+                    raise
                 except Exception as e:
                     err2 = e
                 conserve(where + " (repeat)", op)
